@@ -43,6 +43,7 @@ type Exec struct {
 	defSeen       map[ssa.Value]bool
 	finalCells    map[ssa.Value]Value
 	remembered    map[string]bool
+	retEdge       string
 	nWF           int // number of hypotheses before the function's own requires were assumed
 	extraRequires []*SExpr
 	noReturnOK    bool
@@ -274,6 +275,27 @@ func (e *Exec) run(st *State, inlineArgs []Value) *retPoint {
 				}
 			}
 			if len(edges) == 0 {
+				continue
+			}
+			// a block that only returns: check the postconditions per incoming edge, with the
+			// unmerged state of that edge (smaller terms, one path family per obligation)
+			if e.parent == nil && len(edges) > 1 && e.headers[b] == nil && onlyReturns(b) {
+				e.outEdges[b] = nil
+				for k := range edges {
+					if edges[k].pc.IsFalse() {
+						continue
+					}
+					for _, ins := range b.Instrs {
+						phi, ok := ins.(*ssa.Phi)
+						if !ok {
+							break
+						}
+						e.vals[phi] = e.phiValue(phi, b, []*State{edges[k]}, []*ssa.BasicBlock{preds[k]})
+					}
+					e.retEdge = fmt.Sprintf(".e%d", k+1)
+					e.execBlock(b, edges[k].clone())
+				}
+				e.retEdge = ""
 				continue
 			}
 			in = e.mergeInto(b, edges, preds)
@@ -1084,12 +1106,12 @@ func (e *Exec) retSuffix(r *ssa.Return) string {
 		}
 	}
 	if len(rets) <= 1 {
-		return ""
+		return e.retEdge
 	}
 	sort.Slice(rets, func(i, j int) bool { return rets[i].Pos() < rets[j].Pos() })
 	for i, x := range rets {
 		if x == r {
-			return fmt.Sprintf("@ret%d", i+1)
+			return fmt.Sprintf("@ret%d", i+1) + e.retEdge
 		}
 	}
 	return ""
@@ -1172,4 +1194,16 @@ func (e *Exec) atSite(ins ssa.Instruction, st *State) {
 		e.counts[key]++
 		e.siteAsserts(ins, txt, nil, st, "at", nil)
 	}
+}
+
+// onlyReturns: the block consists of phis, debug references and a return.
+func onlyReturns(b *ssa.BasicBlock) bool {
+	for _, ins := range b.Instrs {
+		switch ins.(type) {
+		case *ssa.Phi, *ssa.DebugRef, *ssa.Return:
+		default:
+			return false
+		}
+	}
+	return true
 }
